@@ -9,7 +9,8 @@ def V(ns, syms, plan, **kw):
     d.update(kw); return d
 
 def F(ns, nsym, plan, **kw):
-    """word automata: ns states, nsym symbols; plan = family mask per step (1 copies/lifetime, 2 mutations, 4 RemoveUnreachableStates, 8 unions)"""
+    """word automata: ns states, nsym symbols; plan = family mask per step (1 copies/lifetime, 2 mutations, 4 RemoveUnreachableStates,
+    8 unions, 16 RemoveUselessStates / Reverse)"""
     d = {'NS': ns, 'NSYM': nsym, 'STEPS': len(plan), 'PLAN': '{%s}' % ','.join(str(p) for p in plan)}
     d.update(kw); return d
 
@@ -19,7 +20,7 @@ A0F1 = [(0, 0), (1, 1)]
 
 TREE_Q = [
   V(2, A01, [7, 7]),                                  # any call, any call
-  V(2, A01, [1, 2, 1]), V(2, A01, [1, 1, 2]), V(2, A01, [1, 2, 2]),      # copy, then mutate one side, then copy/mutate again
+  V(2, A01, [1, 2, 1]), V(2, A01, [1, 1, 2]),                            # copy, then mutate one side, then copy/mutate again
   V(2, A01, [4, 2, 1]), V(2, A01, [4, 1, 2]), V(2, A01, [4, 2, 2]),      # trimming result, then operand/result mutated, copied, destroyed
   V(2, A01, [1, 16, 2]), V(2, A01, [16, 3]),                              # ReindexStates(dst) / CopyTransitionsFrom into a handle that shares storage
   V(2, A01, [8, 2, 1]), V(2, A01, [8, 1, 2]),                             # Union result kept while operands change
@@ -28,30 +29,32 @@ TREE_Q = [
   V(2, A01, [1, 2], NH=3), V(2, A01, [2, 1], NH=3, PRE=2), V(2, A01, [2, 2], NH=3, PRE=2),   # three handles sharing one map
 ]
 TREE_T = TREE_Q + [
+  V(2, A01, [1, 2, 2]),
   V(2, A01, [8, 2, 3]), V(3, A01, [8, 3], PRE=3), V(2, A0G2, [3, 3], INITR=6),
   V(2, A01, [1, 2, 1, 2], INITR=4), V(2, A01, [2, 2, 2], PRE=1), V(2, A01, [1, 2, 2], NH=3, PRE=2),
   V(2, A01, [2, 4, 2]), V(2, A01, [4, 2, 4]), V(2, A01, [16, 2, 1]), V(3, A01, [8, 2, 2], PRE=3, _heavy=1, _mem_gb=16, _time=3000), V(2, A0G2, [1, 2, 2], INITR=6),
 ]
 FA_Q = [
-  F(2, 1, [15, 15]), F(2, 1, [3, 3, 3]), F(2, 1, [4, 2, 3]), F(2, 1, [8, 2, 3], PRE=3), F(2, 2, [1, 2, 2], INITT=4, INITS=2), F(2, 2, [4, 2]),
-  F(3, 1, [1, 2, 2], INITT=5, INITS=2), F(3, 1, [8, 3], PRE=3), F(2, 1, [1, 2, 2], NH=3, PRE=1), F(2, 1, [1, 2, 1, 2]),
+  F(2, 1, [15, 15]), F(2, 1, [3, 3]), F(2, 1, [4, 2, 3]), F(2, 1, [16, 2, 3]), F(2, 1, [16, 3], FINAL_USELESS=None), F(2, 1, [8, 2, 3], PRE=3),
+  F(2, 2, [1, 2, 2], INITT=4, INITS=2), F(2, 2, [16, 2], INITT=4, INITS=2), F(3, 1, [1, 2], INITT=5, INITS=2), F(3, 1, [8, 3], PRE=3), F(3, 1, [16, 2], INITT=4, INITS=1),
+  F(2, 1, [1, 2, 2], NH=3, PRE=1), F(2, 1, [1, 2, 1, 2]),
 ]
-FA_T = FA_Q + [F(2, 1, [15, 15, 3]), F(2, 2, [3, 3, 3], INITT=4, INITS=2), F(3, 1, [4, 2, 3], INITT=5, INITS=2), F(2, 1, [2, 1, 2, 1], NH=3, PRE=1)]
+FA_T = FA_Q + [F(2, 1, [3, 3, 3]), F(3, 1, [1, 2, 2], INITT=5, INITS=2), F(3, 1, [16, 2], INITT=6, INITS=2), F(2, 1, [15, 15, 3]), F(2, 2, [3, 3, 3], INITT=4, INITS=2), F(3, 1, [4, 2, 3], INITT=5, INITS=2), F(2, 1, [2, 1, 2, 1], NH=3, PRE=1), F(2, 1, [16, 16, 2]), F(2, 2, [16, 2]), F(2, 1, [31, 31])]
 
 CHECKS = {
  'C11': {
   'level': 'model_checking',
-  'explanation': 'Two or three heap-allocated automaton objects (so that construction and destruction are calls of the history) go through a symbolic history: a symbolic initial automaton in handle 0, then STEPS calls, each chosen by an input code from the families enabled for that step (copies/lifetime: copy-assign incl. self-assignment, copy-construct incl. the copyTrans/copyFinal variants, move-construct and move-assign with the moved-from object destroyed, move-construct followed by copy-/move-assignment back into the moved-from object, destroy; mutations: AddTransition of any universe rule, SetStateFinal, EraseFinalStates, Clear (word automata: AddTransition, SetStateFinal, SetStateStart); results: RemoveUnreachableStates / RemoveUselessStates stored into any handle incl. the operand itself; unions: UnionDisjointStates stored into a handle, Union with translation maps kept as a separate object; bulk additions: ReindexStates(dst, functor) and CopyTransitionsFrom into an existing handle). Every handle has a shadow value (one boolean per universe rule, mask of final states; word automata also start entries) updated with value semantics; after every call every handle is read back (tree: iteration with exactly-once check, GetFinalStates, ContainsTransition; word: the public DumpToString with a decoding serializer, GetStartStates/GetStartSymbols) and must equal its shadow; results of operations must equal a pure function of the operand shadows (naive fixpoint oracles; Union: disjoint union modulo the returned injective maps) and the kept Union result must stay equal to its snapshot; at the end IsLangEmpty / RemoveUselessStates (word: RemoveUnreachableStates) of every handle must again equal the oracle on the shadow. Use of freed storage, double free and leaks of ownership in the copy-on-write machinery are caught by the engine\'s memory model.',
-  'bounds': {'quick': 'tree automata: 2 handles (3 in three queries), initial automaton any subset of 2 x {a/0,a/1} (also 3 x {a/0,a/1}, 2 x {a/0,g/2}, 3 x {a/0,f/1} with a restricted initial automaton), 2..3 calls from the planned families; word automata: 2..3 handles, 2..3 states, 1..2 symbols, 2..4 calls; 13..22 free input bits per query',
+  'explanation': 'Two or three heap-allocated automaton objects (so that construction and destruction are calls of the history) go through a symbolic history: a symbolic initial automaton in handle 0, then STEPS calls, each chosen by an input code from the families enabled for that step (copies/lifetime: copy-assign incl. self-assignment, copy-construct incl. the copyTrans/copyFinal variants, move-construct and move-assign with the moved-from object destroyed, move-construct followed by copy-/move-assignment back into the moved-from object, destroy; mutations: AddTransition of any universe rule, SetStateFinal, EraseFinalStates, Clear (word automata: AddTransition, SetStateFinal, SetStateStart); results: RemoveUnreachableStates / RemoveUselessStates (word automata also Reverse) stored into any handle incl. the operand itself; unions: UnionDisjointStates stored into a handle, Union with translation maps kept as a separate object; bulk additions: ReindexStates(dst, functor) and CopyTransitionsFrom into an existing handle). Every handle has a shadow value (one boolean per universe rule, mask of final states; word automata also the start states and the start-symbol map) updated with value semantics; after every call every handle is read back (tree: iteration with exactly-once check, GetFinalStates, ContainsTransition; word: the public DumpToString with a decoding serializer, GetStartStates, GetStartSymbols of every state) and must equal its shadow; results of operations must equal a pure function of the operand shadows (naive fixpoint oracles; Union: disjoint union modulo the returned injective maps) and the kept Union result must stay equal to its snapshot; at the end IsLangEmpty / RemoveUselessStates (word: RemoveUnreachableStates) of every handle must again equal the oracle on the shadow. Use of freed storage, double free and leaks of ownership in the copy-on-write machinery are caught by the engine\'s memory model.',
+  'bounds': {'quick': 'tree automata: 2 handles (3 in three queries), initial automaton any subset of 2 x {a/0,a/1} (also 3 x {a/0,a/1}, 2 x {a/0,g/2}, 3 x {a/0,f/1} with a restricted initial automaton), 2..3 calls from the planned families; word automata: 2..3 handles, 2..3 states, 1..2 symbols, 2..4 calls; 16..24 free input bits per query (1..60 s each)',
              'thorough': 'as quick plus histories of 3..4 calls on the same universes'},
-  'outside': 'more than 3 live objects, more than 4 calls after the initial automaton, more than 3 states / rank > 2; moved-from objects are only destroyed or assigned to (any other call on them is outside the contract of the library: core_ is null); automata with a private tuple cache or a private alphabet (not constructible through the public facade); Intersection, Complement, Reduce, CollapseStates, TranslateSymbols, GetCandidateTree and inclusion checking as sources of sharing (they build their result rule by rule from scratch); word automata: RemoveUselessStates / Reverse results are not read back (Reverse copies startStateToSymbols_ unchanged, so GetStartSymbols on its result is undefined for the new start states)',
+  'outside': 'more than 3 live objects, more than 4 calls after the initial automaton, more than 3 states / rank > 2; moved-from objects are only destroyed or assigned to (any other call on them is outside the contract of the library: core_ is null); automata with a private tuple cache or a private alphabet (not constructible through the public facade); Intersection, Complement, Reduce, CollapseStates, TranslateSymbols, GetCandidateTree and inclusion checking as sources of sharing (they build their result rule by rule from scratch); word automata: the start-symbol map is treated as part of the value for every state (Reverse / RemoveUselessStates keep entries of states that are no longer start states), UnionDisjointStates is only called when the operands mention disjoint state sets including the keys of that map; Intersection, Complement, GetCandidateTree, simulation and inclusion on word automata',
   'harnesses': [
     {'name': 'values', 'src': 'harness/C11/values.cc', 'tus': TREE_CORE + ['explicit_tree_useless', 'explicit_tree_unreach', 'explicit_tree_union'],
      'configs': {'quick': TREE_Q, 'thorough': TREE_T},
-     'selftest_config': V(2, A01, [7, 7]), 'selftests': ['VS_SELFTEST_1', 'VS_SELFTEST_2']},
-    {'name': 'favalues', 'src': 'harness/C11/favalues.cc', 'tus': ['explicit_finite_aut', 'explicit_finite_aut_core', 'explicit_finite_unreach', 'explicit_finite_union'],
+     'selftest_config': V(2, A01, [3, 4]), 'selftests': ['VS_SELFTEST_1', 'VS_SELFTEST_2']},
+    {'name': 'favalues', 'src': 'harness/C11/favalues.cc', 'tus': ['explicit_finite_aut', 'explicit_finite_aut_core', 'explicit_finite_unreach', 'explicit_finite_union', 'explicit_finite_reverse', 'explicit_finite_useless'],
      'configs': {'quick': FA_Q, 'thorough': FA_T},
-     'selftest_config': F(2, 1, [7, 7]), 'selftests': ['VS_SELFTEST_1', 'VS_SELFTEST_2']},
+     'selftest_config': F(2, 1, [3, 4]), 'selftests': ['VS_SELFTEST_1', 'VS_SELFTEST_2']},
   ],
  },
 }
